@@ -14,7 +14,7 @@
    owner of Engine.v) at the end of the file. *)
 
 From Coq Require Import List NArith ZArith Bool Lia Arith.
-From Verif Require Import model.Lang model.Engine model.Persist proofs.EngineInv.
+From Verif Require Import model.Lang model.Engine model.Persist proofs.EngineInv model.PersistFields gen.C02Fields.
 Import ListNotations.
 
 (* ---- well-formedness of the run list ------------------------------------------------------------------------ *)
@@ -232,6 +232,86 @@ Proof.
   intros a s tr1 tr2 r H1 H2. unfold context_in_resume, transient_in_resume.
   destruct (resume_applies a s r); [|reflexivity].
   rewrite (prepare_parent _ _ H1), (prepare_parent _ _ H2). reflexivity.
+Qed.
+
+(* ---- resume_applies is the guard chain of Engine.resume_session ------------------------------------------------------ *)
+
+(* what the engine does with the session when every guard passed (the tail of resume_session) *)
+Definition proceeds (a : assets) (s : session) (r : resume) (tmo : text) (wi pos : nat) (n : node) : resume_result :=
+  let x := apply_resume (with_session {| session_ := s; sprint_ := empty_sprint |} (fun s => set_status s SActive)) wi (Some (wi, pos)) r in
+  match find_resume_exit a x wi (is_timeout r) tmo with
+  | FreErr x' => Resumed (ROk (fail_session x' wi FRouteError))
+  | FreGoErr x' => Resumed (RGoError x')
+  | FrePanic => Resumed RPanic
+  | FreOk x' e op =>
+      Resumed (continue_until_wait (fuel_for a (session_ x')) a x'
+                 {| l_cur := Some wi; l_node := Some (match get_run s wi with Some rn => r_flow rn | None => 0%N end, n_id n);
+                    l_exit := e; l_operand := op; l_step := Some (wi, pos); l_steps := 0%Z; l_trigger := false |})
+  end.
+
+(* true: the engine reaches `resume.Apply` (the point where Go assigns currentResume and clears batchStart) *)
+Lemma resume_applies_true : forall a s r tmo,
+  resume_applies a s r = true ->
+  exists wi pos n, waiting_run s = Some wi /\ path_location a s wi = Some (pos, n) /\
+                   resume_session a s r tmo = proceeds a s r tmo wi pos n.
+Proof.
+  intros a s r tmo H. unfold resume_applies in H. unfold resume_session.
+  destruct (sstatus_eqb (s_status s) SWaiting); cbn [andb negb] in *; [|discriminate].
+  destruct (waiting_run s) as [wi|] eqn:Ewr; [|discriminate].
+  destruct (get_run s wi) as [rn|] eqn:Egr; [|discriminate].
+  destruct (get_flow a (r_flow rn)); [|discriminate]. cbn [negb] in *.
+  destruct (Z.of_nat (count_waits s) >=? max_resumes (a_opts a))%Z; cbn [andb negb] in *; [discriminate|].
+  destruct (path_location a s wi) as [[pos n]|] eqn:Epl; [|discriminate].
+  destruct (n_router n) as [[[w|] res cats cases def]|]; try discriminate.
+  rewrite H. cbn [negb]. exists wi, pos, n. split; [first [reflexivity|exact Ewr]|]. split; [first [reflexivity|exact Epl]|].
+  unfold proceeds. rewrite Egr. reflexivity.
+Qed.
+
+Lemma fail_session_fresh_sprint : forall s wi c,
+  sprint_ (fail_session {| session_ := s; sprint_ := empty_sprint |} wi c)
+  = {| sp_events := [(Some wi, {| ev_step := None; ev_kind := EFailure c |})]; sp_segments := [] |}.
+Proof. intros. reflexivity. Qed.
+
+(* false: the resume is turned away before any action or template runs — an engine error that leaves the session
+   untouched, or the session is failed with a single failure event and no segment *)
+Lemma resume_applies_false : forall a s r tmo,
+  resume_applies a s r = false ->
+  (exists code, resume_session a s r tmo = Rejected code) \/
+  (exists wi c, resume_session a s r tmo = Resumed (ROk (fail_session {| session_ := s; sprint_ := empty_sprint |} wi c))).
+Proof.
+  intros a s r tmo H. unfold resume_applies in H. unfold resume_session.
+  destruct (sstatus_eqb (s_status s) SWaiting); cbn [andb negb] in *; [|left; eauto].
+  destruct (waiting_run s) as [wi|]; [|left; eauto].
+  destruct (get_run s wi) as [rn|]; [|right; eauto].
+  destruct (get_flow a (r_flow rn)); [|right; eauto]. cbn [negb] in *.
+  destruct (Z.of_nat (count_waits s) >=? max_resumes (a_opts a))%Z; cbn [andb negb] in *; [right; eauto|].
+  destruct (path_location a s wi) as [[pos n]|]; [|right; eauto].
+  destruct (n_router n) as [[[w|] res cats cases def]|]; try (right; eauto; fail).
+  rewrite H. cbn [negb]. left; eauto.
+Qed.
+
+(* so: the context column of a call is None exactly when the call ran no action *)
+Lemma no_context_no_action : forall a s tr r tmo,
+  context_in_resume a s tr r = None ->
+  match resume_session a s r tmo with
+  | Rejected _ => True
+  | Resumed (ROk x) => exists wi c, sp_events (sprint_ x) = [(Some wi, {| ev_step := None; ev_kind := EFailure c |})] /\ sp_segments (sprint_ x) = []
+  | Resumed _ => False
+  end.
+Proof.
+  intros a s tr r tmo H. unfold context_in_resume in H.
+  destruct (resume_applies a s r) eqn:E; [discriminate|].
+  destruct (resume_applies_false a s r tmo E) as [[code ->]|[wi [c ->]]]; [exact I|].
+  exists wi, c. rewrite fail_session_fresh_sprint. split; reflexivity.
+Qed.
+
+Lemma context_reaches_apply : forall a s tr r tmo c,
+  context_in_resume a s tr r = Some c ->
+  exists wi pos n, waiting_run s = Some wi /\ path_location a s wi = Some (pos, n) /\
+                   resume_session a s r tmo = proceeds a s r tmo wi pos n.
+Proof.
+  intros a s tr r tmo c H. unfold context_in_resume in H.
+  destruct (resume_applies a s r) eqn:E; [|discriminate]. exact (resume_applies_true a s r tmo E).
 Qed.
 
 (* ---- visible result of a call ------------------------------------------------------------------------------------------- *)
@@ -546,3 +626,28 @@ Example ex_reread_rejects_forward_parent :
                       lv_batch_trigger := false; lv_tr := transient_after_read |})
   = RestoreError 0.
 Proof. vm_compute. reflexivity. Qed.
+
+(* ---- every member of the Go structs is persisted, rebuilt, per-call, exempt or host-supplied ------------------------------- *)
+(* tables regenerated from the source by translators/c02fields.py *)
+
+Definition session_tables : tables :=
+  {| tb_fields := go_session_fields; tb_envelope := go_session_envelope; tb_written := go_session_written; tb_read := go_session_read |}.
+Definition run_tables : tables :=
+  {| tb_fields := go_run_fields; tb_envelope := go_run_envelope; tb_written := go_run_written; tb_read := go_run_read |}.
+Definition step_tables : tables :=
+  {| tb_fields := go_step_fields; tb_envelope := go_step_envelope; tb_written := go_step_written; tb_read := go_step_read |}.
+
+Lemma fields_classified :
+  kind_ok session_tables session_classes session_legacy_keys = true /\
+  kind_ok run_tables run_classes [] = true /\
+  kind_ok step_tables step_classes [] = true.
+Proof. vm_compute. repeat split; reflexivity. Qed.
+
+(* the per-call members are exactly the ones Persist.transient and Engine.s_pushed stand for, the exempt ones exactly
+   the statement's two *)
+Lemma per_call_and_exempt_members :
+  names_with is_per_call session_classes = per_call_members /\
+  names_with is_per_call run_classes = [] /\
+  names_with is_exempt run_classes = exempt_members /\
+  names_with is_exempt session_classes = [].
+Proof. vm_compute. repeat split; reflexivity. Qed.
